@@ -44,7 +44,7 @@ def run(ctx):
                 enumv[n] = v
     ctx.need(enumv.get('_max_msg_len') == cap, 'msg_buf size (%s) differs from _max_msg_len (%s)' % (cap, enumv.get('_max_msg_len')))
     reads = f.calls_to(R + 'sockRead')
-    ctx.need(len(reads) == 4, 'expected 4 sockRead calls in read(), found %d' % len(reads))
+    ctx.need(len(reads) >= 3, 'expected at least 3 sockRead calls in read() (byte-wise preamble, preamble, frame), found %d' % len(reads))
     trues = [(v, n) for (v, kind, n) in cfg.exits() if kind == 'return' and q.return_value(n) == 1]
     ctx.need(len(trues) == 1, 'expected one `return true` in read()')
     tv = trues[0][0]
@@ -176,7 +176,9 @@ def run(ctx):
                 continue
             if q.same_expr(ne[0].children[1], rd.args[1]) or ne[0].children[1].strip(casts=True).text().endswith(rd.args[1].strip(casts=True).text()):
                 okfull += 1
-    ctx.check(okfull == 2, 'R15.3', R + 'read#accept.complete-reads', f.loc, 'accepted only when body and checksum reads returned the full requested length')
+    frame_reads = [rd for rd in reads if any(q.refers_to_decl(x, bufd) for x in rd.args[0].walk() if x.k == 'DeclRefExpr') and rd.args[1].strip(casts=True).text() != '_bg_sz']
+    ctx.check(frame_reads and okfull == len(frame_reads), 'R15.3', R + 'read#accept.complete-reads', f.loc,
+              'accepted only when every read of the frame (body, checksum) returned the full requested length (%d read(s))' % len(frame_reads))
     app = [c for c in f.calls() if c.callee is not None and c.callee.get('n') == 'append' and q.refers_to_decl(c.obj, f.param_ids[0])]
     okapp = False
     if len(app) == 1 and cfg.dominates(cfg.vertex_of(app[0]), tv):
